@@ -1009,8 +1009,138 @@ func genTxbHistory(g *Gen, kind string) {
 	t.burst()
 }
 
+// ---------------------------------------------------------------- sweep with fee bump
+
+// plainBlock extends the node's tip with a block holding a coinbase to cbDest and the given transactions.
+func (t *txbGen) plainBlock(cbDest string, cbAmt int64, txs ...*gTx) *gBlock {
+	l := t.ledGen
+	pb := l.tip()
+	l.nBlk++
+	b := &gBlock{name: fmt.Sprintf("B%d", l.nBlk), parent: pb.name, height: pb.height + 1, utxo: map[string]gCoin{}}
+	for k, v := range pb.utxo {
+		b.utxo[k] = v
+	}
+	l.nTx++
+	cb := &gTx{name: fmt.Sprintf("C%d", l.nTx), cb: true, outs: []string{fmt.Sprintf("%s:%d", cbDest, cbAmt)}}
+	cb.line = fmt.Sprintf("tx %s %d cb %s", cb.name, l.nTx, cb.outs[0])
+	l.define(cb)
+	applyTx(b.utxo, cb, b.height)
+	b.txs = []*gTx{cb}
+	names := []string{cb.name}
+	for _, x := range txs {
+		l.define(x)
+		applyTx(b.utxo, x, b.height)
+		b.txs = append(b.txs, x)
+		names = append(names, x.name)
+	}
+	l.blocks[b.name] = b
+	l.op("block", "block %s %s %s", b.name, pb.name, strings.Join(names, ";"))
+	l.op("submit", "submit %s", b.name)
+	l.chain = append(l.chain, b.name)
+	l.queue = append(l.queue, b.name)
+	return b
+}
+
+// genTxbSweep: "send everything minus the quoted fee".  A fresh address of the wallet holds exactly n
+// coins (all larger than any fee); the requests ask, from that address, for total − fee where fee is the
+// relay minimum of the n-input transaction WITH a change output – the fee the wallet quotes after its
+// first selection pass (flat minimum or a tiny user fee, non-dust change) has been rejected by the
+// size-based relay fee.  On the retry the coins cover outputs + fee EXACTLY: the transaction must consist
+// of the requested output only and inputs − outputs must be the reported fee.  Variants one maxwell
+// around the exact cover and around the dust boundary of the change, first as estimates (no
+// reservation), then as a real draft.
+func genTxbSweep(g *Gen, n, payload int, userFee int64) {
+	l := newLedGen(g, "txb")
+	t := &txbGen{ledGen: l, scale: 100000000}
+	l.maxAddr = 8
+	l.start(1)
+	w := l.wallets[0]
+	a0 := l.addrs[w][0]
+	as := l.newAddr(w)
+	src := t.plainBlock(a0, 900000000)
+	for i := 0; i < l.cbm-1; i++ {
+		t.plainBlock(l.stranger(), 100000000)
+	}
+	srcCoin := outCoins(src.txs[0], src.height)[0]
+	l.nTx++
+	x := &gTx{name: fmt.Sprintf("T%d", l.nTx), ins: []gCoin{srcCoin}}
+	const lo, hi = int64(100000), int64(400000)
+	delta := (hi - lo) / int64(n)
+	slots := l.r.Perm(n)
+	var total int64
+	for i := 0; i < n; i++ {
+		a := lo + int64(slots[i])*delta + l.r.Int63n(delta)
+		x.outs = append(x.outs, fmt.Sprintf("%s:%d", as, a))
+		total += a
+	}
+	x.outs = append(x.outs, fmt.Sprintf("%s:%d", l.stranger(), srcCoin.amt-total-20000))
+	x.line = fmt.Sprintf("tx %s %d %s %s", x.name, l.nTx, srcCoin.key(), strings.Join(x.outs, ";"))
+	t.plainBlock(l.stranger(), 100000000, x)
+	t.plainBlock(l.stranger(), 100000000)
+	l.drain()
+
+	const mr = int64(10000)
+	start := userFee
+	if start == 0 {
+		start = mr
+	}
+	feeWC := 10 * (154*int64(n) + 63*2 + 12 + int64(payload)) // relay minimum with the change output
+	cls := "sweep-nobump"
+	switch {
+	case feeWC > start && feeWC-start >= mr:
+		cls = "sweep-feebump" // first pass: non-dust change, fee rejected; retry: exact cover
+	case feeWC > start:
+		cls = "sweep-bump-dustchange"
+	}
+	dest := l.stranger()
+	req := func(op string, out int64) {
+		if out < 1 {
+			return
+		}
+		l.op(cls, "%s %s %d 0 %s - %d %s:%d", op, w, userFee, as, payload, dest, out)
+	}
+	exact := total - feeWC
+	if cls == "sweep-nobump" {
+		exact = total - start
+	}
+	for _, d := range []int64{0, 1, -1, -(mr - 1), -mr, -(mr + 1)} {
+		req("est", exact+d)
+	}
+	// the same amounts against the no-change size (what a one-pass quote would be)
+	req("est", total-(feeWC-630))
+	l.op("judge", "judge")
+	l.op("sums", "sums")
+	req("auto", exact)
+	t.drafts++
+	l.op("judge", "judge")
+	l.op("sums", "sums")
+	l.op("q-reserved", "reserved %s", w)
+	// released again, the same sweep as a second draft must be possible
+	l.op("signfail", "signfail 1")
+	req("auto", exact)
+	l.op("judge", "judge")
+	l.op("sums", "sums")
+}
+
+func genTxbSweeps(g *Gen) {
+	ns := []int{2, 7, 13}
+	fees := []int64{0, 1 + g.Rng.Int63n(50)}
+	if !g.Quick() {
+		ns = []int{1, 2, 3, 6, 7, 8, 12, 13, 14, 20}
+		fees = []int64{0, 1, 1 + g.Rng.Int63n(50), 5000, 12000}
+	}
+	for _, n := range ns {
+		for _, pl := range []int{0, 600, 2048} {
+			for _, f := range fees {
+				genTxbSweep(g, n, pl, f)
+			}
+		}
+	}
+}
+
 func genTxb(g *Gen) {
 	genTxbUnit(g)
+	genTxbSweeps(g)
 	n := g.Scale(70, 1400)
 	for h := 0; h < n; h++ {
 		kind := ""
